@@ -54,6 +54,9 @@ def rule_a(ctx):
 
 
 def rule_b(ctx):
+    from . import inventory, mustpass
+    inventory.check(ctx, ["mailbox-recv"])
+    mustpass.check(ctx, ["recv-runs-handler"])
     recv_awaits_handler(ctx)
     P = ctx.prog
     # the model task is strictly sequential: no join/select/spawn inside the task coroutine
